@@ -106,8 +106,11 @@ pub fn log1pexp(x: f64) -> f64 {
 pub fn logaddexp(x: f64, y: f64) -> f64 {
     if x > y {
         x + log1pexp(y - x)
-    } else {
+    } else if y > x {
         y + log1pexp(x - y)
+    } else {
+        // equal arguments (including both -inf): ln(2 e^x) = x + ln 2
+        x + std::f64::consts::LN_2
     }
 }
 
